@@ -678,7 +678,11 @@ func (g *gen) thread(ti, nops int) []Op {
 		case x < 76:
 			id := 1 + r.Intn(4)
 			g.fobj++
-			ops = append(ops, Op{K: "regnode", ID: id, Obj: g.fobj, Ty: nodeTy[id]})
+			pol := 0
+			if r.Chance(1, 5) {
+				pol = 1 + r.Intn(2) // allow-overwrite spelled out / deny-overwrite
+			}
+			ops = append(ops, Op{K: "regnode", ID: id, Obj: g.fobj, Ty: nodeTy[id], Pol: pol})
 		case x < 86:
 			ops = append(ops, g.withCtx(Op{K: "rmnode", ID: 1 + r.Intn(4)}))
 		case x < 93:
